@@ -444,6 +444,9 @@ func (o *OracleC20) probes(x *Exec, s *Snap) {
 			// report adds a 0.01-token epsilon before flooring and uses rounded ratios)
 			over := new(big.Rat).SetInt(bal).Cmp(s.PosValue(d)) > 0
 			refusal := strings.Contains(msg, "insufficient delegation shares") || strings.Contains(msg, "insufficient tokens") || strings.Contains(msg, "negative coin amount")
+			if refusal && !strings.Contains(msg, "negative coin amount") && !refusalPredicted(s, d, parseInt(bal.String()), msg) {
+				x.Fail("C20", "balance-undelegatable", "position %s reports balance %s (exact value %s) and the module's documented acceptance rule admits undelegating it, but the module refuses: %s", d.Key(), bal, s.PosValue(d).FloatString(6), msg)
+			}
 			if refusal && (over || regime.Cmp(big.NewRat(1, 10)) >= 0) {
 				x.KnownFinding("F-C20c")
 				x.Label("c20:balance-not-withdrawable-rounding")
